@@ -95,7 +95,7 @@ def _main(args):
             if m:
                 known = json.load(open(os.path.join(VERIF, "known_findings.json")))
                 prop = next((f["property"] for f in known["fixed"] if f["commit"] == m.group(1)), None)
-        if prop and re.fullmatch(r"[STUVWX]\d\d", prop) and not all_checks:
+        if prop and re.fullmatch(r"[STUVWXY]\d\d", prop) and not all_checks:
             props = AREA[prop[1:]]
         else:
             props = ALL if (all_checks or prop is None) else RELATED.get(prop, [prop])
